@@ -467,6 +467,52 @@ def caseSelect {α : Type} : List (List Glob × α) → Bytes → Option α
   | [], _ => none
   | (gs, r) :: arms, s => if gs.any (globMatch · s) then some r else caseSelect arms s
 
+/-! ## the quoting pipelines of the scripts, parametric in the script text (instantiated with Gen/C20.lean) -/
+
+abbrev VarEnv := Bytes → Bytes
+
+def VarEnv.set (env : VarEnv) (name val : Bytes) : VarEnv := fun n => if n = name then val else env n
+
+/-- Value of a script word such as `"$operands '"` (one word, variables from `env`). -/
+def evalWordSrc (src : Bytes) (env : VarEnv) : Option Bytes :=
+  match shWords src with
+  | .ok [w] => some (w.subst env)
+  | _ => none
+
+/-- `$(printf FMT "$v" | sed PROG)` where FMT and PROG are given as script words. -/
+def printfSedSubst (progSrc fmtSrc : Bytes) (v : Bytes) : Option Bytes := do
+  let prog ← litWord progSrc
+  let fmt ← litWord fmtSrc
+  let inp ← printfS fmt v
+  let out ← sedRun prog inp
+  pure (cmdSubst out)
+
+/-- The new value of the site's left-hand side variable. -/
+def QuoteSite.value (s : QuoteSite) (escapeSrc : Bytes) (env : VarEnv) : Option Bytes := do
+  let v := env s.var
+  let m ← caseMatch s.guard v
+  if m then do
+    let pre ← evalWordSrc s.pre env
+    let q ← printfSedSubst escapeSrc s.fmt v
+    pure (pre ++ q)
+  else evalWordSrc s.plain env
+
+/-- Script text of the sed-fallback labelling (xzgrep). -/
+structure LabelSrc where
+  suffix : Bytes     -- `"$i:"`
+  guard : Bytes      -- pattern list: names that need escaping
+  fmt : Bytes        -- `'%s\n'`
+  sed : Bytes        -- the escaping program (script word)
+  script : Bytes     -- `"s|^|$i|"`
+
+/-- The `sed_script` xzgrep builds for the file name `name`. -/
+def LabelSrc.sedScript (l : LabelSrc) (name : Bytes) : Option Bytes := do
+  let env0 : VarEnv := fun _ => []
+  let i1 ← evalWordSrc l.suffix (env0.set [105] name)
+  let needs ← caseMatch l.guard i1
+  let i2 ← if needs then printfSedSubst l.sed l.fmt i1 else some i1
+  evalWordSrc l.script (env0.set [105] i2)
+
 /-! ## (v) exit-status logic -/
 
 inductive SVar where
